@@ -223,12 +223,12 @@ theorem bracket_node {sO' stE : PState} {g : Nat} {E : Tree} {re cbE : Nat} {G :
     exact ⟨e1, e2, e3, e4, e5⟩
 
 /-- `prefix* ( fill* E gfill* )` / `prefix* { fill* E trivia* }` is a complete operand -/
-theorem opd_bracket {inner : List PToken} {ls : Bool} (pre : List PToken) (o c : PToken) (wsA wsB : List PToken)
-    (hin : ExprOK ((getDefinition o.type).1 == .group) inner ls)
+theorem opd_bracket {k : Nat} {inner : List PToken} {ls : Bool} (pre : List PToken) (o c : PToken) (wsA wsB : List PToken)
+    (hin : ExprOK k ((getDefinition o.type).1 == .group) inner ls)
     (hpre : ∀ p ∈ pre, isPrefixTok p = true) (ho : isOpenTok o = true)
     (hc : isCloseFor (getDefinition o.type).1 c) (hwA : ∀ w ∈ wsA, isFillTok w = true)
     (hwB : ∀ w ∈ wsB, isGFill ((getDefinition o.type).1 == .group) w = true) (hne : inner ≠ []) :
-    OpdOK (pre ++ (o :: (wsA ++ (inner ++ (wsB ++ [c]))))) := by
+    OpdOK k (pre ++ (o :: (wsA ++ (inner ++ (wsB ++ [c]))))) := by
   intro st1 ug hO hprios hcg pos hnum rest
   have hsz1 := pushP_size pre st1
   obtain ⟨hgs1, hcg1⟩ := pushP_fields pre st1
@@ -240,7 +240,7 @@ theorem opd_bracket {inner : List PToken} {ls : Bool} (pre : List PToken) (o c :
   have hgO : sO'.nodes[(pushP st1 pre).nodes.size]? = some ⟨(getDefinition o.type).1, .startGrouping,
       (pushP st1 pre).nextParent, none, some ((pushP st1 pre).nodes.size + 1), o⟩ := by rw [hnO']; simp
   -- the inner expression
-  obtain ⟨stE, E, re, cbE, hloopE, hinvE, hgsE, hcgE, ho1E, ho2E, hrdE, hrefE⟩ :=
+  obtain ⟨stE, E, re, cbE, hloopE, hinvE, hgsE, hcgE, ho1E, ho2E, hrdE, hcntE, hrefE⟩ :=
     hin sO' _ _ _ hOO' hfs hpriosO hcgO hkO hspO _ hnumI ((wsB ++ [c]) ++ rest)
   have hkE : KindOK stE (some (pushP st1 pre).nodes.size) ((getDefinition o.type).1 == .group) :=
     hkO.transfer (base := (pushP st1 pre).nodes.size + 1) (fun g hg => by injection hg with hg; omega) ho2E
@@ -264,7 +264,13 @@ theorem opd_bracket {inner : List PToken} {ls : Bool} (pre : List PToken) (o c :
     (by show (if stE'.groupStack.pop.isEmpty then none else some (stE'.groupStack.pop.size - 1)) = _
         rw [hpop]; exact hcg.symm)
     rfl (isCloseFor_secdef hc) pos _ hnum
-  refine ⟨stepC stE' (pushP st1 pre).nodes.size false c, _, _, _, ?_, hres, hP, ?_⟩
+  have hcnt : (chainR st1.nodes.size (pre.map (·.col)) (.node .nil (pushP st1 pre).nodes.size o.col E)).inorder.length +
+      st1.nodes.size + k = (stepC stE' (pushP st1 pre).nodes.size false c).nodes.size := by
+    show _ = stE'.nodes.size
+    rw [hnE', chainR_inorder, List.length_map]
+    simp only [Tree.inorder, List.nil_append, List.length_append, List.length_range', List.length_cons]
+    omega
+  refine ⟨stepC stE' (pushP st1 pre).nodes.size false c, _, _, _, ?_, hres, hP, hcnt, ?_⟩
   · have e3 : inner ++ (wsB ++ [c]) ++ rest = inner ++ ((wsB ++ [c]) ++ rest) := by simp
     have e4 : (wsB ++ [c]) ++ rest = wsB ++ ([c] ++ rest) := by simp
     rw [hloopO, e3, hloopE, e4, hloopB]
